@@ -122,7 +122,11 @@ Section Generic.
              | None => estimate_fee_rate relay ans conf maxr
              end) with
       | Err e => Err e
-      | Ok start =>
+      | Ok start0 =>
+        (* fee_function.go (lnd commit 1567bc7): if start > end { start = end }
+           - applies to the supplied start, the relay fee used for conf
+           targets >= 1008 and the estimate left unclamped when end = 0 *)
+        let start := if maxr <? start0 then maxr else start0 in
         let delta := sdelta (wrap64 (maxr - start)) width in
         if (delta =? 0) && negb (width =? 1) then Err ErrZeroFeeRateDelta
         else Ok (mkFF start maxr start width 0 delta)
